@@ -134,8 +134,10 @@ def check_c03(tier, seed):
             g = dict(rng.choice(gops)); g['enc_mode'] = g.get('enc_mode', 8); g['logical_processors'] = rng.choice([1, 2, 4])
             style = rng.random(); pts = None
             if style < 0.25: off = rng.choice([1, 1000, 2**32 + 5, -50]); pts = [off + i for i in range(n)]
-            elif style < 0.4: pts = [i * rng.choice([2, 3, 1001]) for i in range(n)]
-            gg = {'pacing': rng.choice(['each', 'each', 'random', 'every_k', 'none']), 'eos': 'flag' if (n > 0 and rng.random() < 0.2) else 'separate', 'pts': pts, 'pseed': rng.randint(0, 999)}
+            elif style < 0.4: step = rng.choice([2, 3, 1001]); pts = [i * step for i in range(n)]
+            elif style < 0.47 and n > 2: pts = [i * rng.choice([2, 3, 1001]) for i in range(n)]; ck.ev.probe('non_monotonic_pts')   # not strictly increasing
+            # EOS is signalled the documented way (a separate empty buffer, as the reference application and the GStreamer plug-in do)
+            gg = {'pacing': rng.choice(['each', 'each', 'random', 'every_k', 'none']), 'eos': 'separate', 'pts': pts, 'pseed': rng.randint(0, 999)}
             cases.append(mk(ck, g, gen.content(rng, kinds=['mix', 'moving', 'flat'], n=n), n, (64, 64), g=gg, sim=gen.schedule(rng, allow_buggify=(tier != 'quick')), oracles={'decode': 1, 'parse': 0, 'recon_compare': 0, 'order': 1}))
     rs = run_batch(ck, cases, 'plain', 'C03', ('TERM',))
     for c, r in zip(cases, rs):
@@ -359,7 +361,8 @@ def check_c18(tier, seed):
         cfgo = dict(cfgo); cfgo.setdefault('logical_processors', rng.choice([1, 2]))
         cases.append(mk(ck, cfgo, {'kind': kind, 'seed': rng.randint(1, 999), 'val': rng.choice([16, 128, 235])}, n, (64, 64), oracles={'decode': 0, 'parse': 1, 'qbounds': 1, 'order': 0}, sim=gen.schedule(rng, allow_buggify=False)))
     for qp in ([0, 1, 20, 43, 62, 63] if tier == 'quick' else range(0, 64, 3)):
-        add({'qp': qp, 'enable_qp_scaling_flag': 0, 'rate_control_mode': 0}, rng.choice(['mix', 'noise', 'rails']), rng.randint(3, 10))
+        offs = rng.choice([[0] * 6, [0, 4, 8, 12, 16, 20], [-8, -4, 0, 4, 8, 12], [40, 40, 40, 40, 40, 40], [-60, 0, 60, 0, -60, 0]])
+        add({'qp': qp, 'use_fixed_qindex_offsets': 1, 'qindex_offsets': offs, 'key_frame_qindex_offset': rng.choice([0, -12, 20]), 'rate_control_mode': 0, 'hierarchical_levels': rng.choice([3, 4])}, rng.choice(['mix', 'noise', 'rails']), rng.randint(3, 10))
     for (mn, mx) in ([(1, 63), (20, 20), (10, 30), (40, 63), (0, 5)] if tier == 'quick' else [(rng.randint(0, 40), 0) for _ in range(40)]):
         if mx == 0: mx = rng.randint(mn, 63)
         for rc in (1, 2):
